@@ -118,6 +118,7 @@ fn one_value(c: &mut Ctx, fam: &str, idx: u64, rng: &mut Rng, t: u16, fs: &[Fv],
     *per_type.entry(tn.clone()).or_insert(0) += 1;
     let mut buf = vec![0u8; 12];
     buf.extend_from_slice(&wire);
+    let buf = crate::ctx::exact(&buf);
     let ex = || json!({"rtype": t, "rdata": hex(&wire)});
     let viol = |c: &mut Ctx, kind: &str, what: String| {
         let sig = format!("{}:{}", kind, tn);
@@ -166,6 +167,7 @@ fn one_value(c: &mut Ctx, fam: &str, idx: u64, rng: &mut Rng, t: u16, fs: &[Fv],
         // (3) re-parse what the library composed
         let mut buf2 = vec![0u8; 12];
         buf2.extend_from_slice(&co.plain);
+        let buf2 = crate::ctx::exact(&buf2);
         match lib_parse(&buf2, 12, co.plain.len(), t) {
             Ok(v2) => {
                 if !(v == v2) {
@@ -434,6 +436,7 @@ fn one_mutant(c: &mut Ctx, fam: &str, idx: u64, rng: &mut Rng, t: u16, fs: &[Fv]
     let tn = tname(t);
     let mut buf = vec![0u8; 12];
     buf.extend_from_slice(&wire);
+    let buf = crate::ctx::exact(&buf);
     let ex = || json!({"rtype": t, "rdata": hex(&wire)});
     let res = crate::ctx::catch(|| {
         let lib = lib_parse(&buf, 12, wire.len(), t);
@@ -444,6 +447,7 @@ fn one_mutant(c: &mut Ctx, fam: &str, idx: u64, rng: &mut Rng, t: u16, fs: &[Fv]
                 let co = lib_compose(v);
                 let mut b2 = vec![0u8; 12];
                 b2.extend_from_slice(&co.plain);
+                let b2 = crate::ctx::exact(&b2);
                 match lib_parse(&b2, 12, co.plain.len(), t) {
                     Ok(v2) => {
                         if !(*v == v2) {
